@@ -13,6 +13,12 @@ Scenario families (inp["family"]); every family is compared with the model of th
             is called again on the same objects until it returns
   netupdate constraints are changed in place (update/add/remove_constraint) at the end of chosen
             scheduler calls; later views must show the new description
+  deepcopy  the freshly built Simulator is duplicated with copy.deepcopy; the COPY is run first (it must
+            behave like the model and be bound to its own scheduler / interface / network), then the original
+Orthogonal options: inp["late_fill"] (the Simulator is built around a still empty EventQueue that the
+caller fills afterwards through its own reference), inp["others"] (bare acnsim.Event and user-defined
+Event subclasses in the queue, also after the last departure), inp["copy_on_resume"] (resume family: the
+interrupted simulator is deep-copied between two run() calls and the copy is resumed).
 All recorded identifiers are mapped back to the numbers of the input (Names), whatever id style is used."""
 import copy
 import fractions
@@ -25,8 +31,12 @@ from harness.core import q, z, coq_list, coq_bool, coq_opt, coq_str
 
 F = fractions.Fraction
 START = datetime(2021, 3, 1, 6, 30, 0)
-TYPE_CODE = {"Plugin": 0, "Unplug": 1, "Recompute": 2}
-EXPECTED_RANK = {"Unplug": 0, "Plugin": 1, "Recompute": 2}      # the order the property demands
+TYPE_CODE = {"Plugin": 0, "Unplug": 1, "Recompute": 2, "": 3, "Maintenance": 4, "Tick": 5}
+# the order the property demands (departures < arrivals < recomputes); the other kinds by their own precedence
+EXPECTED_RANK = {"Unplug": 0, "Maintenance": 0.5, "Plugin": 1, "Recompute": 2, "Tick": 3, "": 4}
+RESOLVING = ("Plugin", "Unplug", "Recompute")
+# queue entries the simulator does not dispatch on: (class, precedence as encoded for the model, event_type)
+OTHER_KINDS = {"bare": (10 ** 9, ""), "maint": (5, "Maintenance"), "tick": (30, "Tick")}
 NUMERIC_ERRORS = ("InvalidRateError", "InvalidScheduleError")   # raised because of what the scheduler returned
 
 
@@ -185,6 +195,14 @@ def gen_input(rng, tier="quick", malformed=None, family=None, shared_ids=False):
             sessions = gen_sessions(rng, net, horizon=horizon)
         sessions = make_malformed(rng, net, sessions, malformed)
     recomputes = gen_recomputes(rng, sessions, horizon)
+    others = []
+    if rng.random() < 0.3:
+        times = [s["arrival"] for s in sessions] + [s["departure"] for s in sessions]
+        last = max(times + recomputes + [0])
+        for _ in range(rng.randint(1, 3)):
+            c = rng.random()
+            t = last + rng.randint(1, 5) if c < 0.4 else (rng.choice(times) if times and c < 0.7 else rng.randint(0, horizon))
+            others.append([t, rng.choice(["bare", "bare", "maint", "tick"])])
     sched_kind = rng.choice(["zero", "empty", "scripted", "scripted", "uncontrolled", "fcfs"])
     if sched_kind == "fcfs":
         # the sorted algorithms allocate any rate in [0, max] on a "continuous" station; on a
@@ -199,7 +217,14 @@ def gen_input(rng, tier="quick", malformed=None, family=None, shared_ids=False):
                period=rng.choice([1, 5, 15, 1, 5, 15, 7, 2.5, 0.5]),
                sched=dict(kind=sched_kind, seed=rng.randrange(10 ** 9)), malformed=malformed,
                idstyle=rng.choice(ID_STYLES), family=family or "plain",
-               np_types=rng.random() < 0.3)
+               np_types=rng.random() < 0.3, others=others,
+               late_fill=(family != "reuse" and rng.random() < 0.2), fill_one_by_one=rng.random() < 0.5)
+    if family == "resume":
+        how = rng.choice(["same", "copy", "json"])       # resume the same object / a deep copy / a JSON reload
+        inp["copy_on_resume"] = how == "copy"
+        inp["json_on_resume"] = how == "json"
+        if how == "json":
+            inp["np_types"] = False                      # numpy scalars are not JSON-serialisable
     if shared_ids and not malformed and len({s["station"] for s in sessions}) >= 2:
         # unusual but legal: one session id used on two different stations (ids numbered per station,
         # merged batches), preferably by sessions that are connected at the same time
@@ -359,7 +384,8 @@ class Recorder:
     def __init__(self, inp, nm, mutate=False):
         self.inp, self.nm, self.mutate = inp, nm, mutate
         self.sim = None
-        self.limit = max([0] + [max(s["arrival"], s["departure"]) for s in inp["sessions"]] + list(inp["recomputes"])) + 60
+        self.limit = max([0] + [max(s["arrival"], s["departure"]) for s in inp["sessions"]] + list(inp["recomputes"])
+                         + [o[0] for o in inp.get("others", ())]) + 60
         self.occ = []          # (period, [session number or -1 per station], len(event_history))
         self.calls = []
         self.min_margin = 1.0  # min distance of a connected EV's remaining demand from the 1e-3 threshold
@@ -438,8 +464,26 @@ def classes():
         def schedule(self, active_sessions):
             return record_and_schedule(self, active_sessions)
 
+    from acnportal.acnsim.events import Event
+
+    class Maint(Event):                     # user-defined events: the simulator has no branch for them
+        def __init__(self, timestamp):
+            super().__init__(timestamp)
+            self.event_type = "Maintenance"
+            self.precedence = 5
+
+    class Tick(Event):
+        def __init__(self, timestamp):
+            super().__init__(timestamp)
+            self.event_type = "Tick"
+            self.precedence = 30
+
+    # make the classes importable by dotted name, so that a JSON round trip (pydoc.locate) finds them
+    for c in (RecNet, RecAlgo, Maint, Tick):
+        c.__module__, c.__qualname__ = __name__, c.__name__
+        globals()[c.__name__] = c
     _CLASSES.update(A)
-    _CLASSES.update(RecNet=RecNet, RecAlgo=RecAlgo)
+    _CLASSES.update(RecNet=RecNet, RecAlgo=RecAlgo, other=dict(bare=Event, maint=Maint, tick=Tick))
     return _CLASSES
 
 
@@ -696,6 +740,8 @@ def make_events(inp, nm):
         events.append(A["PluginEvent"](arr, ev))
     for j, t in enumerate(inp["recomputes"]):
         events.append(A["RecomputeEvent"](np.int64(t) if npt and j % 2 else t))
+    for t, cls in inp.get("others", ()):
+        events.append(A["other"][cls](t))
     return events
 
 
@@ -705,19 +751,28 @@ def build(inp, rec, shared=None):
     nm = rec.nm
     events = make_events(inp, nm)
     given = list(events)
+    late = shared is None and inp.get("late_fill")
     if shared is None:
         net = make_network(inp, nm)
-        eq = A["EventQueue"](events)
+        eq = A["EventQueue"]() if late else A["EventQueue"](events)
         alg = A["RecAlgo"]()
     else:
         net, eq, alg = shared
         eq.add_events(events)
-    if len(events) != len(given) or any(a is not b for a, b in zip(events, given)):
-        rec.flag("EventQueue modified the list of events it was given")
-    events.clear()                                 # the caller's list is the caller's
     net.rec = rec
     alg.configure(rec)
     sim = A["acnsim"].Simulator(net, alg, eq, START, period=inp["period"], verbose=False)
+    if late:            # the caller keeps its own reference to the (still empty) queue and fills it now
+        if inp.get("fill_one_by_one"):
+            for e in events:
+                eq.add_event(e)
+        else:
+            eq.add_events(events)
+    if sim.event_queue is not eq:
+        rec.flag("Simulator.event_queue is not the EventQueue object it was given")
+    if len(events) != len(given) or any(a is not b for a, b in zip(events, given)):
+        rec.flag("EventQueue modified the list of events it was given")
+    events.clear()                                 # the caller's list is the caller's
     rec.sim = sim
     return sim, (net, eq, alg)
 
@@ -753,8 +808,39 @@ def empty_trace(err):
                 peak=0.0, final_occ=[], min_margin=1.0, flags=[], n_raised=0)
 
 
+def clone(sim, rec):
+    """copy.deepcopy of a simulator; the recording hooks travel with the network / scheduler"""
+    sim2 = copy.deepcopy(sim)
+    rec2 = sim2.network.rec
+    if rec2 is rec or rec2.sim is not sim2 or sim2.scheduler.rec is not rec2 or sim2.network is sim.network \
+            or sim2.event_queue is sim.event_queue or sim2.scheduler is sim.scheduler:
+        rec2.flag("copy.deepcopy(simulator) shares objects with the original")
+    if sim2.scheduler._interface._simulator is not sim2:
+        rec2.flag("the scheduler of a deep-copied simulator is bound to another simulator")
+    return sim2, rec2
+
+
+def reload(sim, rec):
+    """to_json() / from_json() of an interrupted simulator; the recording hooks are re-attached"""
+    import warnings
+    with warnings.catch_warnings():
+        warnings.simplefilter("ignore")
+        sim2 = type(sim).from_json(sim.to_json())
+    if not isinstance(sim2.network, classes()["RecNet"]) or not isinstance(sim2.scheduler, classes()["RecAlgo"]):
+        rec.flag("a JSON round trip changed the class of the network / scheduler")
+        return sim, rec
+    rec.sim = sim2
+    sim2.network.rec = rec
+    sim2.scheduler.configure(rec)
+    sim2.scheduler.register_interface(sim2.scheduler._interface)
+    sim2.max_recompute = rec.inp["max_recompute"]
+    return sim2, rec
+
+
 def run_sim(sim, rec):
-    """run() until it returns; in the resume family the scripted failures are caught and run() is called again"""
+    """run() until it returns; in the resume family the scripted failures are caught and run() is called
+    again (on a deep copy of the interrupted simulator when inp["copy_on_resume"]).  Returns (sim, rec, err)
+    of the simulator that finished."""
     err = None
     for _ in range(len(rec.inp.get("raise_at", ())) + 1):
         try:
@@ -763,11 +849,15 @@ def run_sim(sim, rec):
             break
         except (Boom, HardStop):
             err = "unresumed"
+            if rec.inp.get("copy_on_resume"):
+                sim, rec = clone(sim, rec)
+            elif rec.inp.get("json_on_resume"):
+                sim, rec = reload(sim, rec)
             continue
         except Exception as e:      # noqa
             err = type(e).__name__
             break
-    return err
+    return sim, rec, err
 
 
 def run_impl(inp, mutate=False):
@@ -782,7 +872,7 @@ def run_impl(inp, mutate=False):
             pre = inp["prelude"]
             prec = Recorder(pre, Names(pre), mutate)
             psim, shared = build(pre, prec)
-            perr = run_sim(psim, prec)
+            psim, prec, perr = run_sim(psim, prec)
             if perr is not None or not psim.event_queue.empty():
                 shared = None                       # the prelude did not complete: nothing to reuse
         sim, shared = build(inp, rec, shared)
@@ -796,11 +886,23 @@ def run_impl(inp, mutate=False):
             tsim, _ = build(tw, trec)               # both simulators are alive before either runs
 
             def nested():
-                twin_box["trace"] = trace_of(tsim, trec, run_sim(tsim, trec), "run")
+                s2, r2, e2 = run_sim(tsim, trec)
+                twin_box["trace"] = trace_of(s2, r2, e2, "run")
             rec.nested = nested
         except Exception as e:      # noqa
             twin_box["trace"] = empty_trace(type(e).__name__)
-    err = run_sim(sim, rec)
+    if inp.get("family") == "deepcopy":
+        sim_c, rec_c = clone(sim, rec)
+        sim_c, rec_c, err_c = run_sim(sim_c, rec_c)             # the copy first ...
+        out_c = trace_of(sim_c, rec_c, err_c, "run" if err_c else None)
+        sim, rec, err = run_sim(sim, rec)                       # ... then the original
+        out_o = trace_of(sim, rec, err, "run" if err else None)
+        for key in ("error", "hist", "occ", "iteration", "rates", "energy", "peak", "flags"):
+            if out_o[key] != out_c[key]:
+                out_c["flags"].append("a simulator and its deep copy, run one after the other, differ in %s" % key)
+                break
+        return out_c
+    sim, rec, err = run_sim(sim, rec)
     out = trace_of(sim, rec, err, "run" if err else None)
     if inp.get("family") == "twin":
         if "trace" not in twin_box:                 # the main scheduler was never invoked
@@ -864,6 +966,7 @@ def schedule_coq(sched):
 def input_coq(inp, impl):
     evs = ["(EPlugin %s %s)" % (z(s["arrival"]), session_coq(s)) for s in inp["sessions"]]
     evs += ["(ERecompute %s)" % z(t) for t in inp["recomputes"]]
+    evs += ["(EOther %s %s %s)" % (z(t), z(OTHER_KINDS[c][0]), z(TYPE_CODE[OTHER_KINDS[c][1]])) for t, c in inp.get("others", ())]
     scheds = coq_list(["(%s, %s)" % (z(c["t"]), schedule_coq(c["schedule"])) for c in impl["calls"]])
     return "(mkInput %s %s %s %s)" % (net_coq(inp, impl), coq_opt(inp["max_recompute"], z), coq_list(evs), scheds)
 
@@ -900,7 +1003,7 @@ def is_valid_input(inp):
     for a, b in itertools.combinations(ss, 2):
         if a["station"] == b["station"] and not (a["departure"] <= b["arrival"] or b["departure"] <= a["arrival"]):
             return False
-    return all(t >= 0 for t in inp["recomputes"])
+    return all(t >= 0 for t in inp["recomputes"]) and all(o[0] >= 0 for o in inp.get("others", ()))
 
 
 def monitor_c01(inp, impl):
